@@ -10,7 +10,7 @@ META = {
     'decides': (
         'C09, structural clauses only: (tags) every wrapped form to_dict can '
         'emit (typed dict for HexValue, the #EMPTY marker, ="..."-escaped '
-        'text) has a branch in from_dict and vice versa; (quote) escape '
+        'text) has a branch in from_dict and vice versa; (shadow) no type test of the encoders sits where a test for one of its base classes has already failed (a dead branch loses the tag); (quote) escape '
         'symmetry for both quote delimiters - wherever a value is written '
         'between a delimiter that a reader un-doubles, the writer writes the '
         'still-doubled source text or re-doubles it; (render) exported formula '
@@ -163,23 +163,15 @@ def _quote_sites(ctx):
     out = []
     for f in p.functions.values():
         for n in own_nodes(f):
-            tmpl, vals = None, None
-            if isinstance(n, ast.BinOp) and isinstance(n.op, ast.Mod) and \
-                    isinstance(n.left, ast.Constant) and isinstance(
-                    n.left.value, str):
-                tmpl = n.left.value
-                vals = list(n.right.elts) if isinstance(n.right, ast.Tuple) \
-                    else [n.right]
-                ph = '%s'
-            elif isinstance(n, ast.Call) and isinstance(n.func, ast.Attribute) \
-                    and n.func.attr == 'format' and isinstance(
-                    n.func.value, ast.Constant) and isinstance(
-                    n.func.value.value, str):
-                tmpl = n.func.value.value
-                vals = list(n.args)
-                ph = '{}'
-            else:
+            # the three spellings of formatting, one view: placeholders `{}`
+            from ..util import template_of
+            tp_ = template_of(n) if isinstance(
+                n, (ast.BinOp, ast.Call, ast.JoinedStr)) else None
+            if tp_ is None:
                 continue
+            tmpl, vals = tp_[0].replace('{{', '\x00').replace(
+                '}}', '\x01'), tp_[1]
+            ph = '{}'
             for q in ('"', "'"):
                 # every placeholder lying between two q characters
                 i, k = 0, 0
@@ -195,7 +187,7 @@ def _quote_sites(ctx):
                     before = tmpl[:j]
                     after = tmpl[j + len(ph):]
                     if before.count(q) % 2 == 1 and q in after and \
-                            before.rstrip('[]%s{}')[-1:] in (q, '[', ']') or (
+                            before.rstrip('[]{}')[-1:] in (q, '[', ']') or (
                             before.endswith(q) and after.startswith(q)):
                         if before.count(q) % 2 == 1 and k < len(vals):
                             out.append((f, n, q, vals[k], tmpl))
@@ -491,11 +483,113 @@ def _retag(r, prop, rule):
     return r
 
 
+def rule_shadow(ctx):
+    """A type test that can never succeed: `isinstance(x, S)` reached only
+    where `isinstance(x, B)` has already failed, with S a subclass of B.  In
+    the encoders of the export this is how a tagged form is lost (HexValue is
+    a str: tested after str, its branch is dead and the value is exported as
+    plain text)."""
+    from ..util import path_conditions, with_helpers
+    rr = RuleResult('C09', 'C09.shadow', 'ORD',
+                    'no type test of the import/export encoders is shadowed by '
+                    'an earlier test for a base class', floor=1)
+    p = ctx.project
+    roots = [p.func(EXCEL, 'ExcelModel.to_dict'),
+             p.func(EXCEL, 'ExcelModel.from_dict')]
+    scope = []
+    for r in roots:
+        for g in with_helpers(ctx, r):
+            if g not in scope:
+                scope.append(g)
+
+    def classes_of(g, e):
+        elts = e.elts if isinstance(e, ast.Tuple) else [e]
+        out = []
+        for x in elts:
+            r_ = ctx.cg.resolve_name_expr(g, x) if isinstance(
+                x, (ast.Name, ast.Attribute)) else None
+            if r_ and r_[0] == 'class':
+                out.append(('pkg', r_[1]))
+            elif r_ and r_[0] == 'ext':
+                out.append(('ext', r_[1].split('.')[-1]))
+            elif isinstance(x, ast.Name):
+                out.append(('ext', x.id))     # a builtin
+            else:
+                out.append(None)
+        return out
+
+    def is_sub(c, b):
+        if c is None or b is None:
+            return False
+        if c[0] == 'pkg' and b[0] == 'pkg':
+            return b[1] in p.mro(c[1])
+        if c[0] == 'pkg' and b[0] == 'ext':
+            return b[1] in [str(x).split('.')[-1] for x in p.ext_bases(c[1])]
+        if c[0] == 'ext' and b[0] == 'ext':
+            return c[1] == b[1] or (c[1], b[1]) == ('bool', 'int')
+        return False
+
+    def tests_in(e):
+        for n in ast.walk(e):
+            if isinstance(n, ast.Call) and isinstance(
+                    n.func, ast.Name) and n.func.id == 'isinstance' and len(
+                    n.args) == 2 and isinstance(n.args[0], ast.Name):
+                yield n
+
+    for g in scope:
+        for st in own_nodes(g):
+            if not isinstance(st, ast.stmt):
+                continue
+            heads = [v for k, v in ast.iter_fields(st) if k not in (
+                'body', 'orelse', 'finalbody', 'handlers') and isinstance(
+                v, ast.AST)]
+            mine = [t for h in heads for t in tests_in(h)]
+            if not mine:
+                continue
+            failed = [c for c, pol in path_conditions(g, st) if not pol
+                      and isinstance(c, ast.Call) and isinstance(
+                c.func, ast.Name) and c.func.id == 'isinstance' and len(
+                c.args) == 2 and isinstance(c.args[0], ast.Name)]
+            for t in mine:
+                rr.instances += 1
+                shadow = None
+                for c in failed:
+                    if c.args[0].id != t.args[0].id:
+                        continue
+                    for sc in classes_of(g, t.args[1]):
+                        if sc is not None and all(
+                                any(is_sub(sc, b) for b in classes_of(
+                                    g, c.args[1])) for _ in (0,)) and any(
+                                is_sub(sc, b)
+                                for b in classes_of(g, c.args[1])):
+                            shadow = (c, sc)
+                if shadow is None:
+                    rr.ok('%s: `%s` is reachable' % (g.qualname, norm_src(t)),
+                          '%s:%d' % (g.module.rel, t.lineno),
+                          nontrivial=bool(failed))
+                else:
+                    rr.fail(key_of(g, 'type test `%s` shadowed by `%s`' % (
+                        norm_src(t), norm_src(shadow[0]))),
+                        '%s tests `%s` only where `%s` has already failed; '
+                        '%s is a subclass of that class, so the branch is dead '
+                        'and values of that type are treated like the base '
+                        'type (a HexValue is exported without its tag and '
+                        'comes back as plain text)' % (
+                            g.qualname, norm_src(t), norm_src(shadow[0]),
+                            norm_src(t.args[1])), file=g.module.rel,
+                        function=g.qualname, line=t.lineno)
+    if not rr.instances:
+        raise AnalysisError('C09.shadow: no type test found in the '
+                            'import/export code')
+    return rr
+
+
 def run(ctx):
     S = ctx.soft
     from .c01 import rule_render
     from .c04 import rule_quote as c04_quote
     rs = [S(rule_tags, ctx), S(rule_quote, ctx), S(rule_refs, ctx),
+          S(rule_shadow, ctx),
           _retag(S(rule_render, ctx), 'C09', 'C09.render'),
           _retag(S(c04_quote, ctx), 'C09', 'C09.ids')]
     from .modelstate import rule_emptied
